@@ -5,7 +5,9 @@ import (
 
 	"simlens/plan"
 
+	"github.com/siglens/siglens/pkg/config"
 	eswriter "github.com/siglens/siglens/pkg/es/writer"
+	"github.com/siglens/siglens/pkg/retention"
 	vtable "github.com/siglens/siglens/pkg/virtualtable"
 	"github.com/valyala/fasthttp"
 )
@@ -47,4 +49,18 @@ func indexesOp(op *plan.Op) (interface{}, error) {
 		names = append(names, k)
 	}
 	return map[string]interface{}{"names": names}, err
+}
+
+func init() {
+	extra["retention"] = retentionOp
+}
+
+// retention: one time-based retention pass with the given horizon (hours), the function the cleaner loop calls.
+func retentionOp(op *plan.Op) (interface{}, error) {
+	hours := 24
+	if h, ok := op.Args["hours"].(float64); ok {
+		hours = int(h)
+	}
+	retention.DoRetentionBasedDeletion(config.GetCurrentNodeIngestDir(), hours, op.Org)
+	return nil, nil
 }
